@@ -1,11 +1,15 @@
 (* C11: cue settings -> region.
    - region_sharing: once a cue's settings have produced (or found) region i, every later cue with the same
      settings list finds the same region i and creates nothing, whatever regions were added in between;
-   - region_inside_partial: for EVERY list of setting strings outside the recorded triggers the region lies
-     inside the root container [0,100]x[0,100] with non-negative extent (exact rational arithmetic);
-   - the triggers are real: Findings/C11.v exhibits a setting list for each. *)
+   - region_inside: for EVERY list of setting strings the region lies inside the root container [0,100]x[0,100]
+     with non-negative extent (exact rational arithmetic) - no trigger is left after the repairs e725a80
+     (size limited by the position), 39537f7 (line numbers beyond the grid), ffa7cc9 (percentages above 100),
+     5598a49 (non-positive line numbers), b972272 (vertical centre);
+   - region_sharing_iff: over any sequence of cues read into one document, two cues get the same region
+     if and only if their settings compute the same region (box, writing mode, alignments). *)
 From Coq Require Import QArith Qminmax Lqa.
 From TT Require Import Base.Prelude Gen.VttTables Model.VttTokenizer Model.VttReader.
+From TT Require Spec.VttSpec Model.VttCases.
 Local Open Scope Z_scope.
 
 (* ================================================================ sharing *)
@@ -55,35 +59,129 @@ Proof.
     + intros ext. rewrite <- app_assoc. cbn [app]. rewrite (find_app_none _ _ _ ext F). reflexivity.
 Qed.
 
+(* ================================================================ sharing iff same region value *)
+Lemma region_eqb_true a b : region_eqb a b = true <->
+  r_wm a = r_wm b /\ (r_ew a == r_ew b)%Q /\ (r_eh a == r_eh b)%Q /\ (r_ox a == r_ox b)%Q /\ (r_oy a == r_oy b)%Q /\
+  r_ta a = r_ta b /\ r_da a = r_da b.
+Proof.
+  unfold region_eqb. rewrite !andb_true_iff, !Qeq_bool_iff.
+  assert (W : forall x y, wmode_eqb x y = true <-> x = y) by (intros [] []; cbn; split; congruence).
+  assert (T : forall x y, talign_eqb x y = true <-> x = y) by (intros [] []; cbn; split; congruence).
+  assert (D : forall x y, dalign_eqb x y = true <-> x = y) by (intros [] []; cbn; split; congruence).
+  rewrite W, T, D. tauto.
+Qed.
+Lemma region_eqb_sym a b : region_eqb a b = true -> region_eqb b a = true.
+Proof.
+  rewrite !region_eqb_true. intros (A & B & C & D & E & F & G).
+  repeat split; try (symmetry; assumption).
+Qed.
+Lemma region_eqb_trans a b c : region_eqb a b = true -> region_eqb b c = true -> region_eqb a c = true.
+Proof.
+  rewrite !region_eqb_true. intros (A & B & C & D & E & F & G) (A' & B' & C' & D' & E' & F' & G').
+  repeat split; try congruence; etransitivity; eassumption.
+Qed.
+
+(* the regions of a document, cue after cue (file order), and the region index each cue receives *)
+Fixpoint assign (rs : list region) (ls : list (list text)) : list region * list Z :=
+  match ls with
+  | [] => (rs, [])
+  | l :: ls' =>
+    let '(rs1, i) := get_or_make_region rs l in
+    let '(rs2, ids) := assign rs1 ls' in (rs2, i :: ids)
+  end.
+
+Fixpoint distinct (rs : list region) : Prop :=
+  match rs with [] => True | r :: t => Forall (fun x => region_eqb r x = false) t /\ distinct t end.
+
+Lemma find_none_forall : forall rs r i, find_region r i rs = None -> Forall (fun x => region_eqb x r = false) rs.
+Proof.
+  induction rs as [|x rs IH]; intros r i H; [constructor|]. cbn in H.
+  destruct (region_eqb x r) eqn:E; [discriminate|]. constructor; [exact E|eapply IH; exact H].
+Qed.
+Lemma find_some_nth : forall rs r j k, find_region r j rs = Some k ->
+  j <= k /\ exists x, nth_error rs (Z.to_nat (k - j)) = Some x /\ region_eqb x r = true.
+Proof.
+  induction rs as [|x rs IH]; intros r j k H; cbn in H; [discriminate|].
+  destruct (region_eqb x r) eqn:E.
+  - inversion H; subst. split; [lia|]. exists x. rewrite Z.sub_diag. split; [reflexivity|exact E].
+  - destruct (IH _ _ _ H) as (Hle & y & Hn & Hr). split; [lia|]. exists y. split; [|exact Hr].
+    replace (Z.to_nat (k - j)) with (S (Z.to_nat (k - (j + 1)))) by lia. exact Hn.
+Qed.
+Lemma distinct_snoc : forall rs r, distinct rs -> Forall (fun x => region_eqb x r = false) rs -> distinct (rs ++ [r]).
+Proof.
+  induction rs as [|x rs IH]; intros r D F; cbn; [split; constructor|].
+  destruct D as [Dx Dt]. inversion F as [|? ? Fx Ft]; subst. split.
+  - apply Forall_app. split; [exact Dx|constructor; [exact Fx|constructor]].
+  - apply IH; assumption.
+Qed.
+Lemma distinct_nth : forall rs i j x y, distinct rs -> (i < j)%nat ->
+  nth_error rs i = Some x -> nth_error rs j = Some y -> region_eqb x y = false.
+Proof.
+  induction rs as [|r rs IH]; intros i j x y D Hij Hi Hj; [destruct i; discriminate|].
+  destruct D as [Dr Dt]. destruct j as [|j]; [lia|]. cbn in Hj. destruct i as [|i].
+  - cbn in Hi. inversion Hi; subst. rewrite Forall_forall in Dr. apply Dr. eapply nth_error_In. exact Hj.
+  - cbn in Hi. eapply IH; [exact Dt| |exact Hi|exact Hj]. lia.
+Qed.
+
+Lemma get_or_make_spec rs l rs1 i : distinct rs -> get_or_make_region rs l = (rs1, i) ->
+  distinct rs1 /\ (exists added, rs1 = rs ++ added) /\ 0 <= i /\
+  exists r, nth_error rs1 (Z.to_nat i) = Some r /\ region_eqb r (compute_region l) = true.
+Proof.
+  intros D. unfold get_or_make_region.
+  destruct (find_region (compute_region l) 0 rs) as [k|] eqn:F; intros E; inversion E; subst; clear E.
+  - destruct (find_some_nth _ _ _ _ F) as (Hk & x & Hn & Hx). rewrite Z.sub_0_r in Hn.
+    split; [exact D|]. split; [exists []; rewrite app_nil_r; reflexivity|]. split; [exact Hk|]. exists x. split; assumption.
+  - split; [apply distinct_snoc; [exact D|eapply find_none_forall; exact F]|].
+    split; [eexists; reflexivity|]. split; [lia|]. exists (compute_region l). rewrite Nat2Z.id. split; [|apply region_eqb_refl].
+    rewrite nth_error_app2 by lia. rewrite Nat.sub_diag. reflexivity.
+Qed.
+
+Lemma assign_spec : forall ls rs rs' ids, distinct rs -> assign rs ls = (rs', ids) ->
+  distinct rs' /\ (exists added, rs' = rs ++ added) /\
+  forall a la ia, nth_error ls a = Some la -> nth_error ids a = Some ia ->
+    0 <= ia /\ exists r, nth_error rs' (Z.to_nat ia) = Some r /\ region_eqb r (compute_region la) = true.
+Proof.
+  induction ls as [|l ls IH]; intros rs rs' ids D E; cbn [assign] in E.
+  - inversion E; subst. split; [exact D|]. split; [exists []; rewrite app_nil_r; reflexivity|].
+    intros a la ia H. destruct a; discriminate.
+  - destruct (get_or_make_region rs l) as [rs1 i] eqn:G.
+    destruct (assign rs1 ls) as [rs2 ids2] eqn:A. inversion E; subst; clear E.
+    destruct (get_or_make_spec _ _ _ _ D G) as (D1 & (ad1 & ->) & Hi & r & Hr & Hrc).
+    destruct (IH _ _ _ D1 A) as (D2 & (ad2 & ->) & Hall).
+    split; [exact D2|]. split; [exists (ad1 ++ ad2); rewrite app_assoc; reflexivity|].
+    intros a la ia Hl Hid. destruct a as [|a]; cbn in Hl, Hid.
+    + inversion Hl; inversion Hid; subst. split; [exact Hi|]. exists r. split; [|exact Hrc].
+      rewrite nth_error_app1; [exact Hr|]. apply nth_error_Some. rewrite Hr. discriminate.
+    + exact (Hall _ _ _ Hl Hid).
+Qed.
+
+(* two cues of one file get the same region if and only if their settings compute the same region value *)
+Theorem region_sharing_iff : forall ls rs ids a b la lb ia ib, assign [] ls = (rs, ids) ->
+  nth_error ls a = Some la -> nth_error ls b = Some lb ->
+  nth_error ids a = Some ia -> nth_error ids b = Some ib ->
+  (ia = ib <-> region_eqb (compute_region la) (compute_region lb) = true).
+Proof.
+  intros ls rs ids a b la lb ia ib A Hla Hlb Hia Hib.
+  destruct (assign_spec ls [] rs ids I A) as (D & _ & Hall).
+  destruct (Hall _ _ _ Hla Hia) as (Ha0 & ra & Hra & Ea).
+  destruct (Hall _ _ _ Hlb Hib) as (Hb0 & rb & Hrb & Eb).
+  split.
+  - intros ->. rewrite Hra in Hrb. inversion Hrb; subst.
+    eapply region_eqb_trans; [apply region_eqb_sym; exact Ea|exact Eb].
+  - intros Hab.
+    assert (Hrr : region_eqb ra rb = true).
+    { eapply region_eqb_trans; [exact Ea|]. eapply region_eqb_trans; [exact Hab|apply region_eqb_sym; exact Eb]. }
+    destruct (Z.lt_trichotomy ia ib) as [Hlt|[Heq|Hgt]]; [|exact Heq|].
+    + rewrite (distinct_nth rs (Z.to_nat ia) (Z.to_nat ib) ra rb D) in Hrr; [discriminate|lia|exact Hra|exact Hrb].
+    + apply region_eqb_sym in Hrr.
+      rewrite (distinct_nth rs (Z.to_nat ib) (Z.to_nat ia) rb ra D) in Hrr; [discriminate|lia|exact Hrb|exact Hra].
+Qed.
+
 (* ================================================================ containment *)
 Local Open Scope Q_scope.
 Definition inside_root (r : region) : Prop :=
   0 <= r_ew r /\ 0 <= r_eh r /\ 0 <= r_ox r /\ 0 <= r_oy r /\ r_ox r + r_ew r <= 100 /\ r_oy r + r_eh r <= 100.
 Local Open Scope Z_scope.
-
-Definition is_some {A} (o : option A) : bool := match o with Some _ => true | None => false end.
-(* the line value is a percentage above 100, or a line number that is not in 1..rows (1..cols when vertical) *)
-Definition offset_trigger (wm : wmode) (v0 : text) : bool :=
-  match parse_vtt_pct v0 with
-  | Some p => 100 <? p
-  | None =>
-    match parse_vtt_int v0 with
-    | Some n => (n <=? 0) || ((if horizontal wm then default_rows else default_cols) <? n)
-    | None => false
-    end
-  end.
-Definition line_trigger (cs : list text) (wm : wmode) : bool :=
-  match setting s_line cs with
-  | Some v =>
-    let value := split_on 44 v in
-    let la := if (1 <? length value)%nat then nth_text 1 value else s_start in
-    offset_trigger wm (nth_text 0 value) || (negb (horizontal wm) && text_eqb la s_center)
-  | None => false
-  end.
-(* the recorded findings: region-not-clamped (position / size present), line-number-nonpositive (and other
-   out-of-range line values), vertical-line-center *)
-Definition region_trigger (cs : list text) : bool :=
-  is_some (setting s_position cs) || is_some (setting s_size cs) || line_trigger cs (stage_vertical cs).
 
 Lemma take_while_forall p s : Forall (fun c => p c = true) (take_while p s).
 Proof. induction s as [|c s IH]; cbn; [constructor|]. destruct (p c) eqn:E; constructor; assumption. Qed.
@@ -98,94 +196,122 @@ Proof.
   intros. unfold round_he. assert (0 <= n / d) by (apply Z.div_pos; lia).
   destruct (2 * (n mod d) <? d); [lia|]. destruct (d <? 2 * (n mod d)); [lia|]. destruct (Z.even (n / d)); lia.
 Qed.
-Lemma parse_pct_nonneg v p : parse_vtt_pct v = Some p -> 0 <= p.
+(* a parsed percentage is in 0..100 *)
+Lemma parse_pct_bounds v p : parse_vtt_pct v = Some p -> 0 <= p <= 100.
 Proof.
   unfold parse_vtt_pct.
   destruct (is_nil (take_while is_digit v)); [discriminate|].
   set (r2 := match drop_while is_digit v with 46 :: r => r | _ => drop_while is_digit v end).
   destruct (text_eqb (drop_while is_digit r2) [37]); [|discriminate].
-  intros H; inversion H; subst. apply round_he_nonneg.
-  - apply dec_fold_nonneg; [apply Forall_app; split; apply take_while_forall|lia].
-  - apply Z.pow_pos_nonneg; lia.
+  cbv zeta.
+  set (pct := round_he _ _).
+  assert (Hp : 0 <= pct).
+  { apply round_he_nonneg.
+    - apply dec_fold_nonneg; [apply Forall_app; split; apply take_while_forall|lia].
+    - apply Z.pow_pos_nonneg; lia. }
+  destruct (pct <=? 100) eqn:E; [|discriminate]. intros H; inversion H; subst. lia.
 Qed.
 
-Lemma offset_bounds wm v0 lo : line_offset_of wm v0 = Some lo -> offset_trigger wm v0 = false ->
-  (0 <= lo /\ lo <= 100)%Q.
+Local Open Scope Q_scope.
+Lemma qz_bounds p : (0 <= p <= 100)%Z -> 0 <= qz p /\ qz p <= 100.
 Proof.
-  unfold line_offset_of, offset_trigger.
+  intros [A B]. unfold qz. split; [change 0 with (inject_Z 0)|change 100 with (inject_Z 100)]; rewrite <- Zle_Qle; assumption.
+Qed.
+Lemma clamp100_bounds x : 0 <= clamp100 x /\ clamp100 x <= 100.
+Proof.
+  unfold clamp100. split.
+  - apply Q.min_glb; [apply Q.le_max_r|unfold Qle; vm_compute; discriminate].
+  - apply Q.le_min_r.
+Qed.
+Lemma offset_bounds wm v0 lo : line_offset_of wm v0 = Some lo -> 0 <= lo /\ lo <= 100.
+Proof.
+  unfold line_offset_of.
   destruct (parse_vtt_pct v0) as [p|] eqn:P.
-  - intros E T. inversion E; subst. apply parse_pct_nonneg in P.
-    unfold qz. split; [change 0%Q with (inject_Z 0)|change 100%Q with (inject_Z 100)]; rewrite <- Zle_Qle; lia.
-  - destruct (parse_vtt_int v0) as [n|]; [|discriminate].
-    intros E T. apply orb_false_iff in T as [T1 T2].
-    assert (Hn : 0 < n) by lia. replace (0 <? n)%Z with true in E by lia. cbv beta iota in E.
-    unfold rows_q, cols_q, qz, default_rows, default_cols in *.
-    destruct (horizontal wm); inversion E; subst; clear E.
-    + assert (H1 : (inject_Z 0 <= inject_Z n)%Q) by (rewrite <- Zle_Qle; lia).
-      assert (H2 : (inject_Z n <= inject_Z 23)%Q) by (rewrite <- Zle_Qle; lia).
-      change (inject_Z 0) with 0%Q in H1. change (inject_Z 23) with 23%Q in *.
-      set (x := inject_Z n) in *. clearbody x.
-      assert (Eq : (100 * x / 23 == (100 # 23) * x)%Q) by field. rewrite Eq. split; lra.
-    + assert (H1 : (inject_Z 0 <= inject_Z n)%Q) by (rewrite <- Zle_Qle; lia).
-      assert (H2 : (inject_Z n <= inject_Z 40)%Q) by (rewrite <- Zle_Qle; lia).
-      change (inject_Z 0) with 0%Q in H1. change (inject_Z 40) with 40%Q in *.
-      set (x := inject_Z n) in *. clearbody x.
-      assert (Eq : (100 * x / 40 == (100 # 40) * x)%Q) by field. rewrite Eq. split; lra.
+  - intros E. inversion E; subst. apply qz_bounds. eapply parse_pct_bounds. exact P.
+  - destruct (parse_vtt_int v0) as [n|]; [|discriminate]. cbv zeta. intros E. inversion E; subst. apply clamp100_bounds.
 Qed.
 
-Lemma defaults_inside :
-  (0 <= default_ew /\ 0 <= default_eh /\ 0 <= default_ox /\ 0 <= default_oy /\
-   default_ox + default_ew <= 100 /\ default_oy + default_eh <= 100)%Q.
+Lemma default_bounds :
+  0 <= default_ew /\ 0 <= default_eh /\ 0 <= default_ox /\ default_ox <= 100 /\ 0 <= default_oy /\ default_oy <= 100.
 Proof. repeat split; unfold Qle; vm_compute; discriminate. Qed.
 
-Lemma stage_line_inside cs wm eh ew ox oy da :
-  line_trigger cs wm = false ->
-  stage_line cs wm default_eh default_ew = (eh, ew, ox, oy, da) ->
-  (0 <= ew /\ 0 <= eh /\ 0 <= ox /\ 0 <= oy /\ ox + ew <= 100 /\ oy + eh <= 100)%Q.
+(* what holds before the final limit: extents non-negative, origin inside the root container *)
+Definition pre_box (eh ew ox oy : Q) : Prop := 0 <= eh /\ 0 <= ew /\ 0 <= ox /\ ox <= 100 /\ 0 <= oy /\ oy <= 100.
+
+Lemma stage_size_bounds cs wm eh ew : stage_size cs wm = (eh, ew) -> 0 <= eh /\ 0 <= ew.
 Proof.
-  destruct defaults_inside as (D1 & D2 & D3 & D4 & D5 & D6).
-  unfold line_trigger, stage_line.
-  destruct (setting s_line cs) as [v|]; [|intros _ E; inversion E; subst; repeat split; assumption].
+  destruct default_bounds as (D1 & D2 & _).
+  unfold stage_size. destruct (setting s_size cs) as [v|]; [|intros E; inversion E; subst; split; assumption].
+  destruct (parse_vtt_pct v) as [p|] eqn:P; [|intros E; inversion E; subst; split; assumption].
+  destruct (qz_bounds p (parse_pct_bounds _ _ P)) as [Q0 _].
+  destruct (negb (horizontal wm)); intros E; inversion E; subst; split; assumption.
+Qed.
+
+Lemma half x : x / 2 == x * (1 # 2).
+Proof. reflexivity. Qed.
+
+Lemma stage_line_bounds cs wm eh0 ew0 eh ew ox oy da : 0 <= eh0 -> 0 <= ew0 ->
+  stage_line cs wm eh0 ew0 = (eh, ew, ox, oy, da) -> pre_box eh ew ox oy.
+Proof.
+  intros H0 W0. destruct default_bounds as (_ & _ & D3 & D4 & D5 & D6).
+  unfold stage_line, pre_box.
+  destruct (setting s_line cs) as [v|]; [|intros E; inversion E; subst; repeat split; assumption].
   cbv zeta.
   set (value := split_on 44 v).
   set (la := if (1 <? length value)%nat then nth_text 1 value else s_start).
-  intros T. apply orb_false_iff in T as [T1 T2].
   destruct (line_offset_of wm (nth_text 0 value)) as [lo|] eqn:L;
     [|intros E; inversion E; subst; repeat split; assumption].
-  destruct (offset_bounds _ _ _ L T1) as [L0 L100].
+  destruct (offset_bounds _ _ _ L) as [L0 L100].
   pose proof (Q.le_min_l lo (100 - lo)) as M1. pose proof (Q.le_min_r lo (100 - lo)) as M2.
-  assert (M0 : (0 <= Qmin lo (100 - lo))%Q) by (apply Q.min_glb; lra).
-  set (mn := Qmin lo (100 - lo)) in *.
-  destruct (horizontal wm) eqn:Hh; cbn [negb andb] in T2.
-  - assert (Eq : (mn * 2 / 2 == mn)%Q) by field.
-    destruct (text_eqb la s_center); [|destruct (text_eqb la s_start); [|destruct (text_eqb la s_end)]];
-      intros E; inversion E; subst; clear E; rewrite ?Eq; repeat split; try assumption; lra.
-  - rewrite T2.
-    destruct (text_eqb la s_start); [|destruct (text_eqb la s_end)];
-      intros E; inversion E; subst; clear E; repeat split; try assumption; lra.
+  assert (M0 : 0 <= Qmin lo (100 - lo)) by (apply Q.min_glb; lra).
+  set (mn := Qmin lo (100 - lo)) in *. clearbody mn.
+  destruct (text_eqb la s_center); [|destruct (text_eqb la s_start); [|destruct (text_eqb la s_end)]];
+    destruct (horizontal wm); intros E; inversion E; subst; clear E; rewrite ?half; repeat split; try assumption; lra.
 Qed.
 
-Theorem region_inside_partial cs : region_trigger cs = false -> inside_root (compute_region cs).
+Lemma stage_position_bounds cs wm ta eh0 ew0 ox0 oy0 eh ew ox oy : pre_box eh0 ew0 ox0 oy0 ->
+  stage_position cs wm ta eh0 ew0 ox0 oy0 = (eh, ew, ox, oy) -> pre_box eh ew ox oy.
 Proof.
-  unfold region_trigger. intros H.
-  apply orb_false_iff in H as [H Hl]. apply orb_false_iff in H as [Hp Hs].
-  unfold compute_region.
-  assert (Hsize : stage_size cs (stage_vertical cs) = (default_eh, default_ew)).
-  { unfold stage_size. destruct (setting s_size cs); [discriminate|reflexivity]. }
-  rewrite Hsize.
-  destruct (stage_line cs (stage_vertical cs) default_eh default_ew) as [[[[eh ew] ox] oy] da] eqn:E.
-  assert (Hpos : stage_position cs (stage_vertical cs) (stage_align cs (stage_vertical cs)) eh ew ox oy = (ox, oy)).
-  { unfold stage_position. destruct (setting s_position cs); [discriminate|reflexivity]. }
-  rewrite Hpos. unfold inside_root. cbn [r_ew r_eh r_ox r_oy].
-  exact (stage_line_inside _ _ _ _ _ _ _ Hl E).
+  intros B. pose proof B as (H0 & W0 & X0 & X1 & Y0 & Y1). unfold stage_position. cbv zeta.
+  destruct (setting s_position cs) as [v|]; [|intros E; inversion E; subst; exact B].
+  set (value := split_on 44 v).
+  match goal with |- context [text_eqb ?x s_center] => set (la := x); clearbody la end.
+  destruct (parse_vtt_pct (nth_text 0 value)) as [p|] eqn:P; [|intros E; inversion E; subst; exact B].
+  destruct (qz_bounds p (parse_pct_bounds _ _ P)) as [P0 P100].
+  set (pos := qz p) in *. clearbody pos.
+  pose proof (Q.le_min_l pos (100 - pos)) as M1. pose proof (Q.le_min_r pos (100 - pos)) as M2.
+  assert (M0 : 0 <= Qmin pos (100 - pos)) by (apply Q.min_glb; lra).
+  set (mn := Qmin pos (100 - pos)) in *. clearbody mn.
+  unfold pre_box.
+  destruct (text_eqb la s_center); [|destruct (text_eqb la s_line_left)];
+    destruct (horizontal wm);
+    match goal with
+    | |- context [Qmin ?a ?b] =>
+      pose proof (Q.le_min_l a b) as N1; pose proof (Q.le_min_r a b) as N2;
+      assert (N0 : 0 <= Qmin a b) by (apply Q.min_glb; lra);
+      set (sz := Qmin a b) in *; clearbody sz
+    end;
+    intros E; inversion E; subst; clear E; rewrite ?half; repeat split; try assumption; lra.
 Qed.
 
-(* the hypotheses are satisfiable and the theorem says something: a bottom-aligned cue at line 20 of 23 *)
-Example region_inside_example :
-  region_trigger [[108;105;110;101;58;50;48;44;101;110;100]; [97;108;105;103;110;58;108;101;102;116]] = false.
-Proof. vm_compute. reflexivity. Qed.
+(* the region selected by ANY list of setting strings lies inside the root container with non-negative extent *)
+Theorem region_inside cs : inside_root (compute_region cs).
+Proof.
+  unfold compute_region.
+  destruct (stage_size cs (stage_vertical cs)) as [eh0 ew0] eqn:E0.
+  destruct (stage_size_bounds _ _ _ _ E0) as [A0 A1].
+  destruct (stage_line cs (stage_vertical cs) eh0 ew0) as [[[[eh1 ew1] ox1] oy1] da] eqn:E1.
+  pose proof (stage_line_bounds _ _ _ _ _ _ _ _ _ A0 A1 E1) as B1.
+  destruct (stage_position cs (stage_vertical cs) (stage_align cs (stage_vertical cs)) eh1 ew1 ox1 oy1) as [[[eh ew] ox] oy] eqn:E2.
+  destruct (stage_position_bounds _ _ _ _ _ _ _ _ _ _ _ B1 E2) as (H0 & W0 & X0 & X1 & Y0 & Y1).
+  unfold inside_root. cbn [r_ew r_eh r_ox r_oy].
+  pose proof (Q.le_min_r ew (100 - ox)) as N1. pose proof (Q.le_min_r eh (100 - oy)) as N2.
+  assert (N3 : 0 <= Qmin ew (100 - ox)) by (apply Q.min_glb; lra).
+  assert (N4 : 0 <= Qmin eh (100 - oy)) by (apply Q.min_glb; lra).
+  repeat split; try assumption; lra.
+Qed.
 
-(* ---- what fails inside the triggers (used by Findings/C11.v) *)
+(* executable form, for the case files and examples *)
 Definition inside_root_b (r : region) : bool :=
   Qle_bool 0 (r_ew r) && Qle_bool 0 (r_eh r) && Qle_bool 0 (r_ox r) && Qle_bool 0 (r_oy r) &&
   Qle_bool (r_ox r + r_ew r) 100 && Qle_bool (r_oy r + r_eh r) 100.
@@ -193,4 +319,16 @@ Lemma inside_root_b_spec r : inside_root r -> inside_root_b r = true.
 Proof.
   unfold inside_root, inside_root_b. intros (A & B & C & D & E & F).
   rewrite <- Qle_bool_iff in A, B, C, D, E, F. rewrite A, B, C, D, E, F. reflexivity.
+Qed.
+
+(* the same in the words of the specification: S's containment clause (Spec.VttSpec.region_inside, the clause the
+   check evaluates on the code's regions as clause 20) accepts the region of every list of setting strings *)
+Theorem region_inside_spec cs : VttSpec.region_inside (VttCases.view_region (compute_region cs)) = true.
+Proof.
+  destruct (region_inside cs) as (A & B & C & D & E & F).
+  assert (L : forall a b, (a <= b)%Q -> VttSpec.qle a b = true).
+  { intros a b H. unfold VttSpec.qle. apply Qle_bool_iff. unfold VttSpec.eps.
+    assert (0 <= 1 # 1000000)%Q by (unfold Qle; cbn; lia). lra. }
+  unfold VttSpec.region_inside, VttCases.view_region. cbn [VttSpec.rv_w VttSpec.rv_h VttSpec.rv_x VttSpec.rv_y].
+  rewrite !L by assumption. reflexivity.
 Qed.
